@@ -140,8 +140,9 @@ impl Fq2 {
             });
         }
 
-        let c1 = Fq::from_slice(&s[..32]).unwrap();
-        let c0 = Fq::from_slice(&s[32..]).unwrap();
+        // each coordinate must be below the modulus: reject, do not panic
+        let c1 = Fq::from_slice(&s[..32]).ok_or(Error::NotInField)?;
+        let c0 = Fq::from_slice(&s[32..]).ok_or(Error::NotInField)?;
 
         Ok(Fq2 { c0, c1 })
     }
